@@ -69,10 +69,13 @@ def _slots_finder(clazz, fields_set):
     :param fields_set: Set where to store __slots___ content
     """
     # ... class level
-    try:
-        fields_set.update(clazz.__slots__)
-    except AttributeError:
-        pass
+    # (only the slots declared by this class: the ones of its parents are
+    # visible through the attribute, but are handled below)
+    for name in vars(clazz).get("__slots__", ()):
+        if name.startswith("__") and not name.endswith("__"):
+            # Private slot: its descriptor is stored under its mangled name
+            name = "_{0}{1}".format(clazz.__name__.lstrip("_"), name)
+        fields_set.add(name)
 
     # ... parent classes level
     for base_class in clazz.__bases__:
